@@ -305,6 +305,7 @@ impl<M: Manager, W: From<Object<M>>> Pool<M, W> {
                     vec: VecDeque::with_capacity(builder.config.max_size),
                     size: 0,
                     max_size: builder.config.max_size,
+                    debt: 0,
                 }),
                 users: AtomicUsize::new(0),
                 semaphore: Semaphore::new(builder.config.max_size),
@@ -345,22 +346,39 @@ impl<M: Manager, W: From<Object<M>>> Pool<M, W> {
             None => false,
         };
 
+        // A permit which became surplus by a shrinking `resize` while it was
+        // in use is withdrawn instead of being used (see `Slots::debt`).
         let permit = if non_blocking {
-            self.inner.semaphore.try_acquire().map_err(|e| match e {
-                TryAcquireError::Closed => PoolError::Closed,
-                TryAcquireError::NoPermits => PoolError::Timeout(TimeoutType::Wait),
-            })?
+            loop {
+                let permit = self.inner.semaphore.try_acquire().map_err(|e| match e {
+                    TryAcquireError::Closed => PoolError::Closed,
+                    TryAcquireError::NoPermits => PoolError::Timeout(TimeoutType::Wait),
+                })?;
+                if self.inner.settle_debt() {
+                    permit.forget();
+                } else {
+                    break permit;
+                }
+            }
         } else {
             apply_timeout(
                 self.inner.runtime,
                 TimeoutType::Wait,
                 timeouts.wait,
                 async {
-                    self.inner
-                        .semaphore
-                        .acquire()
-                        .await
-                        .map_err(|_| PoolError::Closed)
+                    loop {
+                        let permit = self
+                            .inner
+                            .semaphore
+                            .acquire()
+                            .await
+                            .map_err(|_| PoolError::Closed)?;
+                        if self.inner.settle_debt() {
+                            permit.forget();
+                        } else {
+                            break Ok::<_, PoolError<M::Error>>(permit);
+                        }
+                    }
                 },
             )
             .await?
@@ -524,15 +542,26 @@ impl<M: Manager, W: From<Object<M>>> Pool<M, W> {
         slots.max_size = max_size;
         // shrink pool
         if max_size < old_max_size {
-            while slots.size > slots.max_size {
+            // Withdraw the permits which are not in use right now ...
+            let mut surplus = old_max_size - max_size;
+            while surplus > 0 {
                 #[cfg(deadpool_verif)]
                 verif::point("managed.resize.shrink_loop");
                 if let Ok(permit) = self.inner.semaphore.try_acquire() {
                     permit.forget();
-                    if let Some(mut obj) = slots.vec.pop_front() {
-                        slots.size -= 1;
-                        self.inner.manager.detach(&mut obj.obj);
-                    }
+                    surplus -= 1;
+                } else {
+                    break;
+                }
+            }
+            // ... and remember the ones which need to be withdrawn when
+            // they are released.
+            slots.debt += surplus;
+            // Drop the idle objects which are no longer backed by a permit.
+            while slots.vec.len() > self.inner.semaphore.available_permits() {
+                if let Some(mut obj) = slots.vec.pop_front() {
+                    slots.size -= 1;
+                    self.inner.manager.detach(&mut obj.obj);
                 } else {
                     break;
                 }
@@ -548,7 +577,10 @@ impl<M: Manager, W: From<Object<M>>> Pool<M, W> {
         if max_size > old_max_size {
             let additional = slots.max_size - old_max_size;
             slots.vec.reserve_exact(additional);
-            self.inner.semaphore.add_permits(additional);
+            // Permits which were still due to be withdrawn stay in use.
+            let settled = additional.min(slots.debt);
+            slots.debt -= settled;
+            self.inner.semaphore.add_permits(additional - settled);
         }
     }
 
@@ -720,6 +752,11 @@ struct Slots<T> {
     vec: VecDeque<T>,
     size: usize,
     max_size: usize,
+    /// Number of semaphore permits which are currently in use (by checked
+    /// out objects or by `get` calls in progress) and must be withdrawn
+    /// instead of being made available again because `max_size` was
+    /// reduced in the meantime.
+    debt: usize,
 }
 
 // Implemented manually to avoid unnecessary trait bound on the struct.
@@ -742,6 +779,28 @@ where
 }
 
 impl<M: Manager> PoolInner<M> {
+    /// Withdraws a just acquired permit if it is surplus. Returns `true` if
+    /// the permit must not be used.
+    fn settle_debt(&self) -> bool {
+        #[cfg(deadpool_verif)]
+        verif::lock_point("managed.get.settle.lock", || verif::is_locked(&self.slots));
+        let mut slots = self.slots.lock().unwrap();
+        if slots.debt > 0 {
+            slots.debt -= 1;
+            true
+        } else {
+            false
+        }
+    }
+    /// Releases the permit of a slot. Must be called while holding the
+    /// lock of `slots`.
+    fn release_permit(&self, slots: &mut Slots<ObjectInner<M>>) {
+        if slots.debt > 0 {
+            slots.debt -= 1;
+        } else {
+            self.semaphore.add_permits(1);
+        }
+    }
     fn return_object(&self, mut inner: ObjectInner<M>) {
         let _ = self.users.fetch_sub(1, Ordering::Relaxed);
         #[cfg(deadpool_verif)]
@@ -749,13 +808,16 @@ impl<M: Manager> PoolInner<M> {
         #[cfg(deadpool_verif)]
         verif::lock_point("managed.return.lock", || verif::is_locked(&self.slots));
         let mut slots = self.slots.lock().unwrap();
-        if slots.size <= slots.max_size {
+        if slots.debt == 0 {
             slots.vec.push_back(inner);
+            // The permit is added while holding the lock so that `resize`
+            // and `close` never see an idle object without its permit.
+            self.semaphore.add_permits(1);
             drop(slots);
             #[cfg(deadpool_verif)]
             verif::point("managed.return.pre_add_permits");
-            self.semaphore.add_permits(1);
         } else {
+            slots.debt -= 1;
             slots.size -= 1;
             drop(slots);
             #[cfg(deadpool_verif)]
@@ -770,14 +832,11 @@ impl<M: Manager> PoolInner<M> {
         #[cfg(deadpool_verif)]
         verif::lock_point("managed.detach.lock", || verif::is_locked(&self.slots));
         let mut slots = self.slots.lock().unwrap();
-        let add_permits = slots.size <= slots.max_size;
         slots.size -= 1;
+        self.release_permit(&mut slots);
         drop(slots);
         #[cfg(deadpool_verif)]
         verif::point("managed.detach.pre_add_permits");
-        if add_permits {
-            self.semaphore.add_permits(1);
-        }
         #[cfg(deadpool_verif)]
         verif::point("managed.detach.pre_detach");
         self.manager.detach(obj);
